@@ -20,6 +20,7 @@ type guardSpec struct {
 func checkC20(c *Ctx) {
 	c.Explanation = "Decides the structural clauses of the bucket constructors and of bucket identity: (O1) each constructor rejects exactly n<=0 (linear) resp. n<=0, start<=0, factor<=1 (exponential) with (nil, error), the success return is reachable only when all guards are false, and the result is make(T, n); (O2) each MustMake* calls its own plain sibling with its parameters in order, panics exactly on err != nil and returns the sibling's result; (O3) no slice of bucket element type that is not freshly allocated in the same function is ever the target of an element store, copy, sort or Swap in the library packages (so the caller's Buckets are never modified; the two sorts operate on copies); (O4) bucketCache.Get returns a cached storage only on a path where bucketsEqual(requested, stored) was true, every other returned storage is built from the requested buckets, and bucketsEqual compares dynamic type, length and every element; (O5) each constructor writes every index 0..n-1 of its result exactly once per loop iteration with, symbolically, start + i*width (or an accumulator seeded with start and advanced by + width after the store) resp. an accumulator seeded with start and advanced by * factor after the store (or start*Pow(factor,i)): element 0 is start and each further element is the previous one plus width / times factor."
 	c.Explanation += " Added later: (O6) the bound table shared between a cache entry and its histograms is written only where it is allocated."
+	c.Explanation += " Added by round 8: (O4) the non-hit path of the cache builds storage through a function that reads no stored storage."
 	c.NotDecided = []string{"the floating-point / integer results of the recurrences (rounding, overflow, the truncation in the duration conversion): O5 decides the recurrence symbolically"}
 
 	// ---- O1 guards ------------------------------------------------------------------------
